@@ -76,6 +76,21 @@ void harness(void)
 		V_COVER("head of a list with parent", !oprev && opar && onext);
 		V_COVER("middle", oprev && onext);
 	}
+#elif defined(UNIT_SWITCH)
+	{
+		/* mpt_gnode_switch(a, b) with b isolated: b takes a's place in the structure, a becomes isolated; the children of
+		 * both stay where they are.  Split by "a has a successor" (known finding: parent links are then not exchanged). */
+		node_t *onext = a->next, *oprev = a->prev, *opar = a->parent;
+		V_REQ(lc(a) && (!a->next || lc(a->next)) && (!a->prev || lc(a->prev)));
+		mpt_gnode_switch(a, b);
+		V_CHECK("switch: sibling links are exchanged", b->next == onext && b->prev == oprev && IMP(onext, onext->prev == b) && IMP(oprev, oprev->next == b) && !a->next && !a->prev);
+		V_CHECK("switch: parent and first-child link follow (replaced node is the last of its list)", IMP(!onext, b->parent == opar && !a->parent && IMP(!oprev && opar, opar->children == b)));
+		V_CHECK("switch: parent and first-child link follow (replaced node has a successor)", IMP(onext, b->parent == opar && !a->parent && IMP(!oprev && opar, opar->children == b)));
+		V_CHECK("switch: children stay with their nodes", a->children == O[in_a].children && b->children == O[in_b].children);
+		V_CHECK("switch: no link of any node outside the neighbourhood changes", IMP(&P[in_g] != a && &P[in_g] != b && &P[in_g] != onext && &P[in_g] != oprev && &P[in_g] != opar, same(in_g)));
+		V_COVER("head of a list with parent and successor", !oprev && opar && onext);
+		V_COVER("last of a list", oprev && !onext);
+	}
 #elif defined(UNIT_INSERT0)
 	{
 		/* insert as the only child */
